@@ -136,8 +136,9 @@ class ValueOrListConverter(UnionConverter):
     def into_data(self, val: t.Any) -> DataType:
         if not isinstance(val, ValueOrList):
             return into_data(val)
+        # (the element converter was built with the custom handlers in effect)
         return t.cast(ValueOrList[t.Any], val).map(
-            lambda v: into_data(v, self.ty)
+            lambda v: self.converters[0].into_data(v)
         )._inner
 
 
